@@ -184,6 +184,47 @@ def plain_functions(facts):
 
 PLAIN_FUNCS = {}
 TYPE_FACTS = {}
+ATTR_FACTS = {}
+# what a declaration promises the caller's compiler about a function (GCC/clang function attributes that change what a call means)
+PROMISES = ["const", "pure", "noreturn", "nonnull", "malloc", "returns_nonnull", "returns_twice", "warn_unused_result", "deprecated",
+            "always_inline", "weak", "alloc_size", "noinline"]      # (not 'access': GCC attaches it implicitly to array parameters in C only)
+ATTR_MACRO = "#define VERIF_ATTRS(fn) (" + " | ".join("(__builtin_has_attribute(fn, __%s__) << %d)" % (a, i) for i, a in enumerate(PROMISES)) + ")"
+
+def attr_masks(wd, h, fns):
+    """{function: bit mask over PROMISES} as the compiler sees the declarations after including header h alone"""
+    if not fns: return {}
+    inc = os.path.join(REPO, "include")
+    cfile = os.path.join(wd, "attr_%s.c" % re.sub(r"\W", "_", h))
+    src = ['#include <stdio.h>', '#include "%s"' % h, ATTR_MACRO, "int main(void) {"]
+    src += ['  printf("%%s\\t%%d\\n", "%s", (int)VERIF_ATTRS(%s));' % (f, f) for f in fns]
+    src += ["  return 0;", "}"]
+    open(cfile, "w").write("\n".join(src) + "\n")
+    r = subprocess.run(["gcc", "-std=gnu99", "-w", "-I" + inc, cfile, "-o", cfile[:-2]], capture_output=True, text=True)
+    if r.returncode != 0:
+        return {}
+    out = subprocess.run([cfile[:-2]], capture_output=True, text=True).stdout
+    return {ln.split("\t")[0]: int(ln.split("\t")[1]) for ln in out.split("\n") if "\t" in ln}
+
+def function_promises(wd, facts):
+    """fact events: for every public function, whether it reaches memory through its arguments (reads / writes) and which promises
+    its declarations make - validated by FactsTrace (a getter cannot be 'const', a writer cannot be 'pure', nothing is 'noreturn' ...)"""
+    evs = []
+    pf = plain_functions(facts)
+    for h, fns in pf.items():
+        masks = attr_masks(wd, h, fns)
+        text = own_preprocessed(h)
+        for fn in fns:
+            m = re.search(r'\b' + fn + r'\s*\(([^;{]*?)\)\s*(?:__attribute__|;|\{)', text, flags=re.S)
+            params = m.group(1) if m else ""
+            ptrs = [p_ for p_ in params.split(",") if "*" in p_ or "[" in p_]
+            reads = 1 if ptrs else 0
+            # (a writer by signature AND by name: a reader that takes a non-const pointer may truthfully be declared pure)
+            writes = 1 if any(not re.search(r'\bconst\b', p_) for p_ in ptrs) and re.search(r'(Set|Init|Create|Pad|Serialize|Finalize|Enable|Disable|_set$|_init$)', fn) else 0
+            mask = masks.get(fn)
+            if mask is None: continue
+            evs.append({"e": "fact", "kind": "fn_promise", "name": fn, "header": h, "reads": reads, "writes": writes,
+                        "attrs": [a for i, a in enumerate(PROMISES) if mask >> i & 1]})
+    return evs
 
 def tu_text(order, alone, lang):
     """returns (source, {line number: expression})"""
@@ -210,6 +251,16 @@ def tu_text(order, alone, lang):
             else:
                 t.append('static_assert(sizeof(%s) == %d && ((((decltype(%s))-1) < 0) == %d), "%s changed meaning");' % (e, sz, e, sg, e))
             lines[len(t)] = e + " (type)"
+    if any(ATTR_FACTS.get(h) for h in order):
+        t.append(ATTR_MACRO)
+        for h in order:
+            for fn, mask in ATTR_FACTS.get(h, {}).items():
+                k += 1
+                if lang == "c":
+                    t.append("typedef char verif_attr_%d[((int)VERIF_ATTRS(%s) == %d) ? 1 : -1];" % (k, fn, mask))
+                else:
+                    t.append('static_assert((int)VERIF_ATTRS(%s) == %d, "%s (what its declarations promise the compiler) changed meaning");' % (fn, mask, fn))
+                lines[len(t)] = fn + " (what its declarations promise the compiler)"
     t.append("int verif_tu_dummy;")
     return "\n".join(t) + "\n", lines
 
@@ -222,7 +273,7 @@ def compile_tuple(wd, order, alone, lang):
     for ln in r.stderr.split("\n"):
         if " error" not in ln: continue
         m = re.match(r"<stdin>:(\d+):", ln)
-        if m and int(m.group(1)) in lines and ("verif_assert" in ln or "verif_type" in ln or "size of array" in ln or "negative" in ln):
+        if m and int(m.group(1)) in lines and ("verif_assert" in ln or "verif_type" in ln or "verif_attr" in ln or "size of array" in ln or "negative" in ln):
             errs.append('error: static assertion failed: "%s changed meaning"' % lines[int(m.group(1))])
         else:
             errs.append(ln)
